@@ -26,6 +26,8 @@ Explains(e) ==
      \/ e.op = "yo"   /\ e.r = (IF SmallArg(e.o) THEN FromYo(e.y, Arg(e.o)) ELSE NoDate)
      \/ e.op = "iso"  /\ e.r = (IF SmallArg(e.w) THEN FromIsoYwd(e.y, Arg(e.w), e.wd) ELSE NoDate)
      \/ e.op = "days" /\ e.r = FromDays(e.n)
+     \/ e.op = "consts" /\ e.min = MinDay /\ e.max = MaxDay /\ e.epoch = DayNumber(1970, 1, 1) /\ e.dtmin = <<MinDay, 0, 0>> /\ e.dtmax = <<MaxDay, 86399, 999999999>>
+                        /\ e.utcmin = e.dtmin /\ e.utcmax = e.dtmax /\ e.unix_epoch = <<DayNumber(1970, 1, 1), 0, 0>> /\ e.default = DayNumber(1970, 1, 1)
      \/ e.op = "cmp"  /\ e.c = (IF e.a < e.b THEN -1 ELSE IF e.a > e.b THEN 1 ELSE 0) /\ e.eq = (e.a = e.b)
                       /\ LET ka == <<IsoYearOf(e.a), IsoWeekOf(e.a)>>  kb == <<IsoYearOf(e.b), IsoWeekOf(e.b)>> IN
                          /\ e.ic = LexCmp(ka, kb) /\ e.ieq = (ka = kb)
